@@ -11,7 +11,7 @@ import threading
 
 
 class Scheduler:
-    def __init__(self, schedule, marker="/statham/", focus=()):
+    def __init__(self, schedule, marker="/statham/", focus=(), dense=()):
         self.schedule = [(max(0, int(g)), max(1, int(p))) for g, p in schedule]
         # focus entries (module suffix, n, pick): additionally switch at the n-th line event executed
         # inside that module - reaches short critical sections that a uniform gap rarely hits
@@ -19,6 +19,10 @@ class Scheduler:
         for module, nth, pick in focus:
             self.focus.setdefault(module, {})[int(nth)] = max(1, int(pick))
         self.module_counts = {}
+        # dense modules: hand the baton on at EVERY line executed inside them (finest interleaving of
+        # that module's code between the threads), up to a cap so that a run stays short
+        self.dense = set(dense)
+        self.dense_left = 400
         self.marker = marker
         self.cv = threading.Condition()
         self.current = None
@@ -33,7 +37,11 @@ class Scheduler:
     def _point(self, tid, frame=None):
         self.points += 1
         pick = None
-        if self.focus and frame is not None:
+        if self.dense and frame is not None and self.dense_left > 0:
+            if frame.f_code.co_filename.split(self.marker)[-1] in self.dense:
+                self.dense_left -= 1
+                pick = 1
+        if pick is None and self.focus and frame is not None:
             module = frame.f_code.co_filename.split(self.marker)[-1]
             wanted = self.focus.get(module)
             if wanted is not None:
